@@ -135,6 +135,44 @@ def effTopic (t : Str) : Str := if t.isEmpty then defaultForwarderTopic else t
 
 def wrap (topic : Str) (m : Msg) : Envelope := ⟨topic, m.uuid, m.payload, m.md⟩
 
+def cont (b : UInt8) : Bool := 0x80 ≤ b && b ≤ 0xBF
+
+/-- length of the well-formed UTF-8 sequence at the head of the string, 0 if there is none
+    (RFC 3629: no overlong forms, no surrogates, nothing above U+10FFFF) -/
+def seqLen : Str → Nat
+  | [] => 0
+  | b0 :: rest =>
+    if b0 < 0x80 then 1
+    else match rest with
+      | [] => 0
+      | b1 :: r1 =>
+        if 0xC2 ≤ b0 && b0 ≤ 0xDF then (if cont b1 then 2 else 0)
+        else match r1 with
+          | [] => 0
+          | b2 :: r2 =>
+            if b0 == 0xE0 then (if 0xA0 ≤ b1 && b1 ≤ 0xBF && cont b2 then 3 else 0)
+            else if (0xE1 ≤ b0 && b0 ≤ 0xEC) || b0 == 0xEE || b0 == 0xEF then (if cont b1 && cont b2 then 3 else 0)
+            else if b0 == 0xED then (if 0x80 ≤ b1 && b1 ≤ 0x9F && cont b2 then 3 else 0)
+            else match r2 with
+              | [] => 0
+              | b3 :: _ =>
+                if b0 == 0xF0 then (if 0x90 ≤ b1 && b1 ≤ 0xBF && cont b2 && cont b3 then 4 else 0)
+                else if 0xF1 ≤ b0 && b0 ≤ 0xF3 then (if cont b1 && cont b2 && cont b3 then 4 else 0)
+                else if b0 == 0xF4 then (if 0x80 ≤ b1 && b1 ≤ 0x8F && cont b2 && cont b3 then 4 else 0)
+                else 0
+
+def validUtf8F : Nat → Str → Bool
+  | 0, s => s.isEmpty
+  | f + 1, s => s.isEmpty || (seqLen s != 0 && validUtf8F f (s.drop (seqLen s)))
+
+/-- `utf8.Valid`.  The envelope travels as JSON; `encoding/json` keeps exactly the valid-UTF-8 strings unchanged
+    (payload bytes travel as base64). -/
+def validUtf8 (s : Str) : Bool := validUtf8F s.length s
+
+/-- every string of the envelope is valid UTF-8 (the scope of the Forwarder clauses: JSON is the wire contract) -/
+def Envelope.utf8 (e : Envelope) : Bool :=
+  validUtf8 e.dest && validUtf8 e.uuid && e.md.all (fun kv => validUtf8 kv.1 && validUtf8 kv.2)
+
 structure FPubOut where
   calls : List (Str × List Envelope)   -- Publish calls on the wrapped publisher: topic, enveloped batch
   err   : Bool
